@@ -55,7 +55,7 @@ class TlcResult:
 
 _RE_STATES = re.compile(r"(\d+) states generated, (\d+) distinct states found, (\d+) states? left on queue")
 _RE_DEPTH = re.compile(r"The depth of the complete state graph search is (\d+)")
-_RE_COV = re.compile(r"^<(\w+) line \d+, col \d+ to line \d+, col \d+ of module (\w+)>: (\d+):(\d+)", re.M)
+_RE_COV = re.compile(r"^<(\w+) line \d+, col \d+ to line \d+, col \d+ of module (\w+)(?: \([\d ]+\))?>: (\d+):(\d+)", re.M)
 _RE_INV = re.compile(r"Error: Invariant (\S+) is violated")
 _RE_ACTP = re.compile(r"Error: Action property (\S+) is violated")
 
@@ -99,7 +99,7 @@ def run_tlc(module: str | Path, cfg: Path, *, workdir: Path, workers: int | str 
             simulate: str | None = None, depth: int | None = None, seed: int | None = None,
             coverage: bool = False, dump_dot: Path | None = None, env: dict | None = None,
             timeout: float = 3600, xss: str = "64m", heap: str | None = None,
-            extra: list[str] | None = None, dfs_queue: bool = False, gc: str | None = None) -> TlcResult:
+            extra: list[str] | None = None, dfs_queue: bool = False, gc: str | None = None, jit: str | None = None) -> TlcResult:
     """`module` is a module name in spec/ or a path to a generated root module."""
     module = Path(module)
     if not module.suffix:
@@ -108,7 +108,9 @@ def run_tlc(module: str | Path, cfg: Path, *, workdir: Path, workers: int | str 
     if gc is None:
         gc = "serial" if str(workers) == "1" else "parallel"
     cmd = ["java", "-XX:+UseSerialGC" if gc == "serial" else "-XX:+UseParallelGC", f"-Xss{xss}"]
-    cmd.append(f"-Xmx{heap or ('3g' if gc == 'serial' else '12g')}")
+    cmd.append(f"-Xmx{heap or ('2g' if gc == 'serial' else '12g')}")
+    if str(workers) == "1" or jit == "c1":
+        cmd.append("-XX:TieredStopAtLevel=1")     # short single-worker runs: C2 compilation costs more than it saves
     cmd += [f"-DTLA-Library={SPEC_DIR}"]
     if dfs_queue:
         cmd.append("-Dtlc2.tool.queue.IStateQueue=StateDeque")
